@@ -24,7 +24,12 @@ pub struct ConcCase {
   pub schedule: Option<Vec<(u64, usize)>>,
 }
 
+pub type CheckFn = fn(&Scenario, &Knobs, Option<Vec<(u64, usize)>>, &JudgeCfg) -> ConcResult;
+
 pub struct ConcProp {
+  pub check: CheckFn,
+  pub rule: &'static str,
+  pub extra_assumptions: &'static [&'static str],
   pub id: &'static str,
   pub judge: JudgeCfg,
   pub gen: fn(&mut Rng) -> Scenario,
@@ -33,6 +38,9 @@ pub struct ConcProp {
 
 pub fn c18() -> ConcProp {
   ConcProp {
+    check: check_conc,
+    rule: CONC_RULE,
+    extra_assumptions: &[],
     id: "C18",
     judge: JudgeCfg {
       compare_answers: true,
@@ -48,6 +56,9 @@ pub fn c18() -> ConcProp {
 
 pub fn c19() -> ConcProp {
   ConcProp {
+    check: check_conc,
+    rule: CONC_RULE,
+    extra_assumptions: &[],
     id: "C19",
     judge: JudgeCfg {
       compare_answers: false,
@@ -59,6 +70,42 @@ pub fn c19() -> ConcProp {
     gen: gen_scenario,
     // deliberately the same stream as C18: C19 re-executes C18's scenarios
     stream: "C18",
+  }
+}
+
+pub fn c14() -> ConcProp {
+  ConcProp {
+    check: crate::strict::check_c14,
+    rule: "case = (scenario, knobs, schedule) from splitmix(VERIF_SEED, run index): a constructor program P (every source type, also re-boxed / behind dyn), objects a = P(), b = P() (own caches), c = P'() with P' one edit away (leaf text, file name, replacement field / order, child, attached map, node type); 1-3 simulated threads issue observers on a, b, c and comparison ops (==, hash with a fixed hasher, clone-then-compare, clone-then-hash, HashMap insert/lookup). Oracle: every answer equals the answer of the same call on a cold value (no union over orders); cold cross-checks: a == b, hash(a) == hash(b), symmetric ==, equal values answer every observer alike (text exact, attribution canonical), and a == c implies equal hashes and answers. distinct_nontrivial = distinct (scenario, event-log hash) pairs with at least one thread switch or, for single-thread histories, at least one comparison after an observer.",
+    extra_assumptions: &["FxHasher with its fixed initial state is the hasher; hashes are compared within one process only"],
+    id: "C14",
+    judge: JudgeCfg {
+      compare_answers: true,
+      consume: false,
+      fatal_events: true,
+      skip_baselines: false,
+      keep_trace: false,
+    },
+    gen: crate::strict::gen_c14,
+    stream: "C14",
+  }
+}
+
+pub fn c10() -> ConcProp {
+  ConcProp {
+    check: crate::strict::check_c10,
+    rule: "case = (scenario, knobs, schedule) from splitmix(VERIF_SEED, run index): a wrapped ASCII tree W (all source types, may itself contain CachedSource and user-defined sources), c = CachedSource::new(W) and 0-2 clones sharing its caches; 1-3 simulated threads (60% one thread = plain call history) run 1-8 calls of source/buffer/size/rope/to_writer(fault plan)/map/stream(also cancelled)/hash/clone-then-observe with alternating column settings. Oracle: every answer equals what a cold W answers to the same call (text, bytes, size, end info exact; maps and chunk streams by canonical per-position attribution for the same column setting), also in a final pass after the history. A mismatch over a W that is itself not self-consistent (its own map() and chunk stream disagree, or it reports untrue positions) is classified as inherited. distinct_nontrivial = distinct (scenario, event-log hash) pairs that contain a thread switch, or single-thread histories with >= 2 calls.",
+    extra_assumptions: &["W's own consistency is judged without any CachedSource code and only reclassifies a mismatch (inherited_inconsistency vs not_transparent); it never hides one"],
+    id: "C10",
+    judge: JudgeCfg {
+      compare_answers: true,
+      consume: false,
+      fatal_events: true,
+      skip_baselines: false,
+      keep_trace: false,
+    },
+    gen: crate::strict::gen_c10,
+    stream: "C10",
   }
 }
 
@@ -86,7 +133,8 @@ impl ConcProp {
       log_hash: res.outcome.stats.log_hash,
       case_hash: hash_value(&case.scenario),
       // non-trivial: at least two threads actually interleaved
-      nontrivial: res.outcome.stats.switches > 0 && res.skipped.is_none(),
+      nontrivial: res.skipped.is_none()
+        && (res.outcome.stats.switches > 0 || (case.scenario.threads.len() == 1 && case.scenario.n_ops() >= 2)),
       skipped: res.skipped.is_some(),
       case: serde_json::to_value(&out_case).unwrap(),
       outcome_hash: oh,
@@ -109,7 +157,7 @@ impl ConcProp {
   fn fails_with(&self, case: &ConcCase, kind: &str, tries: u32) -> Option<ConcCase> {
     // 1. the recorded schedule
     {
-      let r = check_conc(&case.scenario, &case.knobs, case.schedule.clone(), &self.judge);
+      let r = (self.check)(&case.scenario, &case.knobs, case.schedule.clone(), &self.judge);
       if r.violations.iter().any(|v| v.kind == kind) {
         let mut c = case.clone();
         c.schedule = Some(r.outcome.stats.deviations.clone());
@@ -126,7 +174,7 @@ impl ConcProp {
         2 => Policy::Pct { depth: 2, horizon: 40 },
         _ => Policy::Forced { k: 2, horizon: 30 },
       };
-      let r = check_conc(&case.scenario, &knobs, None, &self.judge);
+      let r = (self.check)(&case.scenario, &knobs, None, &self.judge);
       if r.violations.iter().any(|v| v.kind == kind) {
         return Some(ConcCase {
           kind: "conc".into(),
@@ -289,10 +337,36 @@ pub fn scenario_shrinks(s: &Scenario) -> Vec<Scenario> {
       }
     }
   }
+  // object positions carry meaning in these families (C10: object 0 is the
+  // wrapped tree and the others are caches over it; C14: a, b, c)
+  let positional = s.family == "c10" || s.family == "c14";
+  if s.family == "c10" {
+    if let Some(TreeSpec::Cached { cache_id, .. }) = s.objects.get(1) {
+      for small in tree_shrinks(&s.objects[0]) {
+        let mut c = s.clone();
+        for (i, obj) in c.objects.iter_mut().enumerate() {
+          *obj = if i == 0 {
+            small.clone()
+          } else {
+            TreeSpec::Cached {
+              inner: Box::new(small.clone()),
+              cache_id: *cache_id,
+            }
+          };
+        }
+        out.push(c);
+      }
+    }
+  }
+  if positional {
+    return out;
+  }
   // drop an unused object
   for o in 0..s.objects.len() {
     let used = s.threads.iter().flatten().any(|op| {
-      op.obj == o || matches!(&op.kind, OpKind::Eq { other } if *other == o)
+      op.obj == o
+        || matches!(&op.kind, OpKind::Eq { other } if *other == o)
+        || matches!(&op.kind, OpKind::Lookup { probe } if *probe == o)
     });
     if !used && s.objects.len() > 1 {
       let mut c = s.clone();
@@ -302,7 +376,7 @@ pub fn scenario_shrinks(s: &Scenario) -> Vec<Scenario> {
           if op.obj > o {
             op.obj -= 1;
           }
-          if let OpKind::Eq { other } = &mut op.kind {
+          if let OpKind::Eq { other } | OpKind::Lookup { probe: other } = &mut op.kind {
             if *other > o {
               *other -= 1;
             }
@@ -342,7 +416,7 @@ impl Property for ConcProp {
 
   fn run_one(&self, seed: u64, index: u64) -> RunReport {
     let case = self.generate(seed, index);
-    let res = check_conc(&case.scenario, &case.knobs, None, &self.judge);
+    let res = (self.check)(&case.scenario, &case.knobs, None, &self.judge);
     self.report(index, &case, &res)
   }
 
@@ -357,7 +431,7 @@ impl Property for ConcProp {
     });
     let mut judge = self.judge.clone();
     judge.keep_trace = keep_trace;
-    let res = check_conc(&c.scenario, &c.knobs, c.schedule.clone(), &judge);
+    let res = (self.check)(&c.scenario, &c.knobs, c.schedule.clone(), &judge);
     let trace = res.outcome.stats.trace.clone();
     (self.report(0, &c, &res), trace)
   }
@@ -406,7 +480,7 @@ impl Property for ConcProp {
       }
       let mut shorter = sched.clone();
       shorter.remove(i);
-      let r = check_conc(&cur.scenario, &cur.knobs, Some(shorter), &self.judge);
+      let r = (self.check)(&cur.scenario, &cur.knobs, Some(shorter), &self.judge);
       if r.violations.iter().any(|v| v.kind == kind) && r.outcome.stats.deviations.len() < sched.len() {
         cur.schedule = Some(r.outcome.stats.deviations.clone());
         i = 0;
@@ -418,7 +492,7 @@ impl Property for ConcProp {
   }
 
   fn rule(&self) -> String {
-    "case = (scenario, knobs, schedule) drawn from splitmix(VERIF_SEED, run index): 60% general random scenarios (1-4 shared roots incl. clones sharing caches and structural twins, 2-3 threads x 1-4 ops), 40% directed families; schedule policy, switch rate, DashMap shard count and callback points re-drawn per run. A case counts as distinct_nontrivial when at least one thread switch happened and its (scenario, event-log hash) pair was not seen before in this batch; distinct_interleavings = distinct event-log hashes.".into()
+    self.rule.to_string()
   }
 
   fn assumptions(&self) -> Vec<String> {
@@ -429,6 +503,9 @@ impl Property for ConcProp {
       "attribution is compared for ASCII trees only, and skipped when a wrapped tree is not sequentially self-consistent (that is C10's finding)".into(),
       "sampling, not enumeration: a clean batch is evidence, not proof".into(),
     ]
+    .into_iter()
+    .chain(self.extra_assumptions.iter().map(|s| s.to_string()))
+    .collect()
   }
 
   fn real_vs_stub(&self) -> Value {
@@ -438,6 +515,8 @@ impl Property for ConcProp {
     })
   }
 }
+
+pub const CONC_RULE: &str = "case = (scenario, knobs, schedule) drawn from splitmix(VERIF_SEED, run index): 60% general random scenarios (1-4 shared roots incl. clones sharing caches and structural twins, 2-3 threads x 1-4 ops), 40% directed families; schedule policy, switch rate, DashMap shard count and callback points re-drawn per run. A case counts as distinct_nontrivial when at least one thread switch happened and its (scenario, event-log hash) pair was not seen before in this batch; distinct_interleavings = distinct event-log hashes.";
 
 #[allow(dead_code)]
 fn _unused(_: Op) {}
